@@ -15,7 +15,7 @@ import vlib
 from vlib import ToolError, VERIF, WORK, SPEC, PUPPET_BUILD, sh, log
 
 SESS_SRC = VERIF / "puppets" / "sess"
-REFTRACE_VERSION = "v2"      # bump when reftrace.rs or the range computation changes (cache key)
+REFTRACE_VERSION = "v3"      # bump when reftrace.rs or the range computation changes (cache key)
 TOOLCHAINS = {"1.89": "+1.89", "1.95": "+stable", "nightly": "+nightly"}
 
 
@@ -189,6 +189,8 @@ class Puppet:
         self.funcs = self.meta["funcs"]
         self.native_exit = self.meta.get("exit")
         self.native_stdout = self.meta.get("stdout", "")
+        if "TICK=" not in self.native_stdout:
+            raise ToolError(f"{self.key}: the reference run did not capture the puppet's report line (stdout={self.native_stdout!r})")
         self._annotate()
 
     def fn_of(self, pc):
@@ -286,6 +288,7 @@ TailPos == {self.tail}
   MaxBk = {maxbk}
   Lifecycle = {"TRUE" if lifecycle else "FALSE"}
   Signals = {"TRUE" if getattr(self, "signals", False) else "FALSE"}
+  Extras = {"TRUE" if getattr(self, "extras", False) else "FALSE"}
 """
         return d, cfg_common
 
@@ -408,6 +411,10 @@ def to_events(p, obs, attach=False):
                     e["bt"] = [f["ip"] for f in after["bt"]]
                 elif "bt_err" in after or "bt_panic" in after:
                     e["bt"] = []
+        elif name in ("call", "watch_addr"):
+            e["cmd"] = "call" if name == "call" else "watch"
+            rip, tick = after.get("rip"), after.get("tick")
+            e["idx"] = p.index.get((rip, tick), 0)
         else:
             e["cmd"] = name
         e["k"] = o["k"]
